@@ -3,8 +3,8 @@ from props_common import COMMON_TRUSTED
 CONFIG = {
     "areas": ["stateres"],
     "lean": ["VProps.C10"],
-    "sources": ["VProps/C10.lean", "VModel/StateRes.lean", "VModel/StateResSpec.lean", "VModel/StateResSpecExec.lean", "VModel/Auth.lean", "VModel/Event.lean", "VProofs/StateResBasic.lean", "VProofs/StateResSort.lean", "VProofs/StateResSpecOrder.lean", "VProofs/StateResSpecClosure.lean", "VProofs/StateResSpecSplit.lean", "VProofs/StateResSpecAuthDiff.lean", "VProofs/StateResSpecControl.lean", "VProofs/StateResSpecKahn.lean", "VProofs/StateResSpecKahn2.lean", "VProofs/StateResSpecMainline.lean", "VProofs/StateResSpecState.lean", "VProofs/StateResSpecResolve.lean", "VProofs/StateResSpecUnique.lean", "VProofs/StateResSpecExample.lean", "VProofs/StateResSpecV1.lean", "VProofs/StateResSpecV1b.lean"],
-    "theorems": ["V.C10.stateres_column_eq_spec", "V.C10.entrypoint_selects", "V.C10.authClosure_iff_reachable", "V.C10.controlClosure_iff", "V.C10.split_eq_spec", "V.C10.split_v1_eq_spec", "V.C10.authDifference_eq_spec", "V.C10.subgraph_eq_spec", "V.C10.authDifference21_eq_spec", "V.C10.controlSet_eq_spec", "V.C10.otherSet_eq_spec", "V.C10.powerOrder_unique", "V.C10.kahn_is_power_order", "V.C10.reverseTopoAuth_is_power_order", "V.C10.mainline_eq_spec", "V.C10.mainline_unique", "V.C10.mainline_normal_case", "V.C10.mainlinePos_eq_spec", "V.C10.posSteps_eq_spec", "V.C10.posSteps_normal_case", "V.C10.mainlineOrdering_eq_spec", "V.C10.mainlineOrdering_unique", "V.C10.iterativeAuth_eq_fold", "V.C10.iterativeAuth_eq_spec", "V.C10.resolveV2_eq_spec", "V.C10.resolveV2_1_eq_spec", "V.C10.resolves_unique", "V.C10.v1Order_eq_spec", "V.C10.v1Order_unique", "V.C10.resolveV1_eq_spec", "V.C10.resolveV1_unique", "V.C10.entrypoint_eq_spec"],
+    "sources": ["VProps/C10.lean", "VModel/StateRes.lean", "VModel/StateResSpec.lean", "VModel/StateResSpecExec.lean", "VModel/Auth.lean", "VModel/Event.lean", "VProofs/StateResBasic.lean", "VProofs/StateResSort.lean", "VProofs/StateResSpecOrder.lean", "VProofs/StateResSpecClosure.lean", "VProofs/StateResSpecSplit.lean", "VProofs/StateResSpecAuthDiff.lean", "VProofs/StateResSpecControl.lean", "VProofs/StateResSpecKahn.lean", "VProofs/StateResSpecKahn2.lean", "VProofs/StateResSpecMainline.lean", "VProofs/StateResSpecState.lean", "VProofs/StateResSpecResolve.lean", "VProofs/StateResSpecUnique.lean", "VProofs/StateResSpecExample.lean", "VProofs/StateResSpecV1.lean", "VProofs/StateResSpecV1b.lean", "VProofs/StateResSpecExecSets.lean", "VProofs/StateResSpecExecSets2.lean", "VProofs/StateResSpecExecOrder.lean", "VProofs/StateResSpecExecOrder2.lean", "VProofs/StateResSpecExecResolve.lean"],
+    "theorems": ["V.C10.stateres_column_eq_spec", "V.C10.entrypoint_selects", "V.C10.authClosure_iff_reachable", "V.C10.controlClosure_iff", "V.C10.split_eq_spec", "V.C10.split_v1_eq_spec", "V.C10.authDifference_eq_spec", "V.C10.subgraph_eq_spec", "V.C10.authDifference21_eq_spec", "V.C10.controlSet_eq_spec", "V.C10.otherSet_eq_spec", "V.C10.powerOrder_unique", "V.C10.kahn_is_power_order", "V.C10.reverseTopoAuth_is_power_order", "V.C10.mainline_eq_spec", "V.C10.mainline_unique", "V.C10.mainline_normal_case", "V.C10.mainlinePos_eq_spec", "V.C10.posSteps_eq_spec", "V.C10.posSteps_normal_case", "V.C10.mainlineOrdering_eq_spec", "V.C10.mainlineOrdering_unique", "V.C10.iterativeAuth_eq_fold", "V.C10.iterativeAuth_eq_spec", "V.C10.resolveV2_eq_spec", "V.C10.resolveV2_1_eq_spec", "V.C10.resolves_unique", "V.C10.v1Order_eq_spec", "V.C10.v1Order_unique", "V.C10.resolveV1_eq_spec", "V.C10.resolveV1_unique", "V.C10.v1_result_depends_on_block_order", "V.C10.entrypoint_eq_spec", "V.C10.execSpec_resolves", "V.C10.execSpec_eq_model"],
     "rule": "room-history generator: simulated servers build a DAG (create, joins/leaves/invites/bans/kicks, power-level changes incl. "
             "demotions, join-rule changes, other state) with up to 4 forks, equal timestamps, mostly auth-valid events plus some rejected ones; "
             "2-4 state sets at branch tips; versions 1, 2-11 sample, 12/hydra; full auth closure as auth events (one per key for version 1); "
